@@ -789,6 +789,31 @@ def rule_counted(ctx):
     return res.finish(1)
 
 
+def _grown_in_loop(fn, search, local):
+    """the append to `local` that shares a loop with the binary search `search` (and no sort of `local` in that loop)"""
+    from .layout import with_parents
+    for n, anc in with_parents(fn["body"]):
+        if n is not search:
+            continue
+        for a in reversed(anc):
+            if a.get("k") != "Loop":
+                continue
+            grow = None
+            resorted = False
+            for y in walk(a):
+                if y.get("k") == "MethodCall":
+                    t = peel_refs(y["recv"])
+                    if t.get("k") == "Path" and t.get("local") == local:
+                        if y["name"] in ("push", "extend", "append", "extend_from_slice", "push_back", "push_front"):
+                            grow = grow or y
+                        elif y["name"].startswith("sort") or y["name"] == "dedup":
+                            resorted = True
+            if grow is not None and not resorted:
+                return grow
+        return None
+    return None
+
+
 def rule_search(ctx):
     """A membership test decides which samples a label filter keeps.  `binary_search` is a membership test only on a
     sorted sequence; on a caller-supplied slice (whose order the API does not prescribe) it misses listed elements, and
@@ -812,7 +837,10 @@ def rule_search(ctx):
             key = fn_key(fn)
             t = peel_refs(n["recv"])
             res.instance("%s : %s on `%s`" % (key, n["name"], t.get("name", "?")))
-            if t.get("k") == "Path" and t.get("local") in sorted_locals and sorted_locals[t["local"]] <= n["ln"]:
+            grown = _grown_in_loop(fn, n, t.get("local")) if t.get("k") == "Path" and "local" in t else None
+            if grown is not None:
+                res.violate("%s : binary-search-on-sequence-appended-to:%s" % (key, t.get("name")), "`%s.%s(..)` runs in a loop that also appends to `%s` (`%s`, line %d) without sorting it again inside the loop: after the first append the sequence is no longer sorted, the search misses elements that are present (and a label looked up this way is added a second time)" % (t.get("name"), n["name"], t.get("name"), grown["name"], grown["ln"]), fn_loc(fn, n["ln"]))
+            elif t.get("k") == "Path" and t.get("local") in sorted_locals and sorted_locals[t["local"]] <= n["ln"]:
                 res.ok()
             elif t.get("k") == "Path" and t.get("local") in params:
                 res.violate("%s : binary-search-on-caller-slice:%s" % (key, t.get("name")), "`%s.%s(..)` searches the caller's slice, which is never sorted here: for an unsorted list the search misses listed elements and the samples carrying them are dropped" % (t.get("name"), n["name"]), fn_loc(fn, n["ln"]))
